@@ -27,6 +27,9 @@ structure HCtx where
   c03Exempt : Bool := false
   lastLoc : Option (Pt × String) := none
   ended : Bool := false
+  /-- a dumped state already violated a structural / Delaunay spec: everything later in this
+  history is a consequence and is not judged (the violation itself has been reported) -/
+  tainted : Bool := false
 deriving Inhabited
 
 def stEq (a b : St) : Bool :=
@@ -172,6 +175,7 @@ def judge (h : HCtx) (op res : Array String) (dump : Option St) : HCtx × List F
   let name := op.getD 0 ""
   let r0 := res.getD 0 ""
   let h := { h with step := h.step + 1 }
+  if h.tainted then (h, []) else
   -- universal outcomes
   if r0 == "timeout" then
     ({ h with ended := true }, [⟨"C07", "timeout", name⟩])
@@ -204,8 +208,9 @@ def judge (h : HCtx) (op res : Array String) (dump : Option St) : HCtx × List F
         { verts := if vertsMatch d a' then a'.verts
                    else ((List.range d.nV).map fun i => (d.P i, d.data.getD i 0)).toArray,
           cons := if !d.isCdt || consMatch d a' then a'.cons else flaggedSegs d }
-      ({ h with abs := a'', cur := d, lastLoc := none },
-        pre ++ checkAbs d a' opProps ++ checkState h d opProps)
+      let sf := checkState h d opProps
+      ({ h with abs := a'', cur := d, lastLoc := none, tainted := !sf.isEmpty },
+        pre ++ checkAbs d a' opProps ++ sf)
   match name with
   | "ins" | "insh" =>
     match validPt (op.getD 1 "") (op.getD 2 ""), parseNat (op.getD 3 "") with
@@ -314,9 +319,22 @@ def judge (h : HCtx) (op res : Array String) (dump : Option St) : HCtx × List F
         else if r0 == "some" then (parseNat (res.getD 1 "")).map some else none
       match r with
       | some r =>
-        let slack := if exactFam h.fam then 0 else 40
+        -- rounding of the squared distances: binary64 has 53, binary32 24 significant bits
+        let slack := if exactFam h.fam then 0 else if h.scalar == "f32" then 16 else 40
+        let pbits := if h.scalar == "f32" then 18 else 46
+        -- classification of a failure (used by the known-findings signatures): did the walk stop
+        -- at a vertex that has a strictly closer neighbour, and is that neighbour closer only
+        -- within the rounding of the squared distance (a plateau of rounded distances)?
+        let cls := fun (_ : Unit) => match r with
+          | none => "none"
+          | some v =>
+            let dv := dist2 (s.P v) q
+            let closer := (List.range s.nE).filter fun e => s.org e == v && dist2 (s.B e) q < dv
+            if closer.isEmpty then "localmin"
+            else if closer.all (fun e => (dv - dist2 (s.B e) q) * 2 ^ pbits ≤ dv) then "plateau"
+            else "early"
         (h, chk (decide (s.NearestOK q slack r)) "C15" "nearest-neighbor-not-minimal"
-          (fun _ => s!"q={q} answer={res.toList}"))
+          (fun _ => s!"class={cls ()} q={q} answer={res.toList}"))
       | none => bad "result"
     | none => bad "args"
   | "hull" =>
